@@ -448,3 +448,7 @@ def arbitrary(name, t):
 def infinity():
     """the value of numpy.inf / math.inf (symbolically: a constant above every finite metric value)"""
     return float("inf")
+
+
+def uf(name, *args, kind="int"):
+    raise RuntimeError("uf() has no native meaning; use it only in interface contracts that are stubbed natively")
